@@ -20,6 +20,8 @@ int main(int argc, char **argv)
         return 2;
     }
     std::set_terminate(hx::on_terminate);
+    std::signal(SIGABRT, hx::on_signal);
+    std::signal(SIGSEGV, hx::on_signal);
     std::ifstream in(argv[1]);
     hx::trace().open(argv[2]);
     std::map<long, std::unique_ptr<ISpline>> objs;
